@@ -97,4 +97,16 @@ CLAIMS = {
         "technique": "byte-class extraction by conditional constant propagation over the input byte, exact subset checks "
                      "between extracted classes, abstract path enumeration of the iterator bodies",
     },
+    "C06": {
+        "text": "Claimed (structural clauses): a read failure is never swallowed - no value that can hold parse::Error / "
+                "io::Error is dropped or passed to a discarding adaptor on a normal path of the parser (5 reviewed "
+                "exceptions where an error is still returned), and the complete outcome maps of IoRead::next/peek and "
+                "LineColIterator::next send Some(Err(e)) to an error carrying e, None to end of input, Some(Ok(b)) to b; "
+                "lexpr touches the user's reader only through io::Read::bytes, so chunking and Interrupted are std's "
+                "contract; the Io and Slice variants of the symbol and string scanners have identical byte classes over "
+                "all 256 bytes. Equality of parse results across the three sources is not decided.",
+        "note": _TB + "std::io::Bytes reads one byte per call and retries ErrorKind::Interrupted.",
+        "technique": "error-drop dataflow over MIR drop terminators, outcome-map extraction by constant propagation, "
+                     "who-may-call audit of io::Read, byte-class extraction and comparison of sibling scanners",
+    },
 }
